@@ -9,7 +9,7 @@ Exit 0: property held on everything explored (KNOWN-FINDING lines for listed fin
 Exit 1: "VIOLATION property=<id> replay=<path>" (ends with no-failing-input-found when only a proof
 obligation or the model/implementation correspondence broke and no concrete failing input was found).
 """
-import json, os, re, subprocess, sys, time, hashlib, shutil
+import json, os, re, subprocess, sys, time, hashlib, shutil, fcntl
 
 V = os.path.dirname(os.path.dirname(os.path.abspath(__file__)))
 B = os.path.join(V, "build")
@@ -233,7 +233,7 @@ def evidence(prop, tier, seed, t0, cov, violations, assumptions):
                 level = c["level_claimed"]["category"]
     except Exception:
         pass
-    cov.setdefault("explanation", "Coq model + regenerated-table lemmas + extracted statement oracle + per-step correspondence; no property theorem registered for this property yet" if level == "other" else "property theorems in coq/Properties/%s.v (closed under the global context), plus table lemmas, statement oracle and correspondence" % prop)
+    cov.setdefault("explanation", "partial: model-level theorems in coq/Properties/%s.v (closed under the global context) + exploration of the real implementation (overflow-checked build, watchdog) — Rust-level panic freedom is explored, not proved" % prop if level == "other" else "property theorems in coq/Properties/%s.v (closed under the global context), plus table lemmas, statement oracle and correspondence" % prop)
     ev = {"property_id": prop, "tier": tier, "seed": seed, "level": level, "coverage": cov,
           "assumptions": assumptions, "wall_s": round(time.time() - t0, 2), "violations": violations}
     json.dump(ev, open(os.path.join(V, "evidence", prop + ".json"), "w"), indent=1)
@@ -272,6 +272,10 @@ def main():
     t0 = time.time()
     broken = []      # broken proof obligations / correspondence infrastructure (no concrete input yet)
 
+    # the build phase (cargo target dir, coq/Gen, make in coq/, driver) is shared between checks: serialise it
+    os.makedirs(B, exist_ok=True)
+    build_lock = open(os.path.join(B, ".build.lock"), "w")
+    fcntl.flock(build_lock, fcntl.LOCK_EX)
     ok, out = build_harness()
     if not ok:
         # rule 6, third bullet: the harness no longer compiles against the tree = broken correspondence
@@ -316,6 +320,8 @@ def main():
         chk_note = "coqchk -o: rc=%s Axioms: %s" % (rc_c, ax_txt[:200])
         if rc_c != 0 or ax_txt != "<none>" or "type-in-type: <none>" not in out_c or "positivity is assumed: <none>" not in out_c:
             broken.append("coqchk does not accept Properties/%s.vo cleanly: %s" % (prop, out_c[-600:]))
+
+    fcntl.flock(build_lock, fcntl.LOCK_UN)
 
     if replay:
         rp = json.load(open(replay))
